@@ -9,6 +9,7 @@
 import AriadneModel.Driver.Wire
 import AriadneModel.Model.PluginPipeline
 import AriadneModel.Model.ClientSem
+import AriadneModel.Model.PluginFindings
 
 open Lean (Json)
 open Ariadne Ariadne.Py Ariadne.Plugins
@@ -268,6 +269,8 @@ def handle (j : Json) : Except String Json := do
   | "pipeline" =>
     let plugins ← (← arrOf (← j.getObjVal? "plugins")).mapM decPlugin
     let events ← (← arrOf (← j.getObjVal? "events")).mapM decEvent
+    let customOps := match j.getObjVal? "customOps" with | .ok (.bool b) => b | _ => false
+    let trigs := triggersOf { plugins := plugins, events := events, customOps := customOps }
     let (ps, err) := runPipeline { plugins := plugins } events
     let trace := ps.trace.map (fun (c, x, y) =>
       Json.mkObj [("hook", c.hook), ("op", jopt c.opName), ("in", encPayload x), ("out", encPayload y)])
@@ -286,7 +289,8 @@ def handle (j : Json) : Except String Json := do
           ("unresolved", Json.arr ((unresolvedNames pkg).map Json.str).toArray)]
       | none => .null
     pure (Json.mkObj [("trace", Json.arr trace.toArray), ("error", jopt err), ("ops", encOps ps.opsFile?),
-      ("views", Json.arr views.toArray), ("checks", pkgChecks)])
+      ("views", Json.arr views.toArray), ("checks", pkgChecks),
+      ("triggers", Json.arr (trigs.map Json.str).toArray)])
   | "splitlines" =>
     let s ← Wire.fieldStr j "s"
     pure (Json.arr ((splitLines s).map Json.str).toArray)
